@@ -100,7 +100,7 @@ type vfpsWorld struct {
 	rq     map[int]*vfpsReq
 	up     map[int]*vfpsUpd
 	gating bool
-	drain  bool // the history is being wound down: no gate blocks any more
+	drain  bool          // the history is being wound down: no gate blocks any more
 	pend   map[int64]int // goroutine id -> request whose backend operation is in progress
 	curUpd int           // update between up.begin and its return (label for up.limiter)
 	tcp    bool
